@@ -15,7 +15,7 @@ from .common import generic_replay, run_families, std_case
 
 ASSUMPTIONS = [
     "trees use no user-defined coercers and only idempotent processors; union variants return their input; RecordValidator only with the dict-building target; class defaults are accepted by their own field validators",
-    "Coq theorem is partial: proved on the fragment Fixpoint.fp_ok (no sets / maps / records); the rest is covered by re-validation in the correspondence",
+    "Coq theorems are partial: proved on the fragment Fixpoint.fp_ok (incl. sets / maps without container predicates, DictValidatorAny and Dataclass / NamedTuple / TypedDict validators with string keys and no whole-object validator); RecordValidator targets and container predicates on the payload are covered by re-validation in the correspondence",
 ]
 
 IDEM_PROCS = [("Strip",), ("Upper",), ("Lower",), ("ProcUser", N(0))]
